@@ -72,13 +72,13 @@ func (C02) Gen(rt *rapid.T, tier string) any {
 	if mode == "real" && rapid.Bool().Draw(rt, "containerd") {
 		kind = oneOf(rt, []string{"containerd", "containerd-graph"}, "containerd.kind")
 	}
-	if pick(rt, 1000, "elfbomb") < 2 && os.Getenv("VERIF_X_ONLY") == "" || os.Getenv("VERIF_X_ONLY") == "elfbomb" {
+	if pick(rt, 2000, "elfbomb") < 3 && os.Getenv("VERIF_X_ONLY") == "" || os.Getenv("VERIF_X_ONLY") == "elfbomb" {
 		kind = "elfbomb"
 	}
 	if os.Getenv("VERIF_X_ONLY") == "containerd-graph" {
 		kind = "containerd-graph"
 	}
-	if pick(rt, 1000, "eggbomb") < 3 && os.Getenv("VERIF_X_ONLY") == "" || os.Getenv("VERIF_X_ONLY") == "eggbomb" {
+	if pick(rt, 2000, "eggbomb") < 3 && os.Getenv("VERIF_X_ONLY") == "" || os.Getenv("VERIF_X_ONLY") == "eggbomb" {
 		kind = "eggbomb"
 	}
 	if mode == "sim" && chance(rt, 6, "compfault") && os.Getenv("VERIF_X_ONLY") == "" || os.Getenv("VERIF_X_ONLY") == "companion-fault" {
@@ -193,7 +193,7 @@ func (C02) Gen(rt *rapid.T, tier string) any {
 			p.next++
 			name := oneOf(rt, []string{"EGG-INFO/PKG-INFO", "bomb-1.0.dist-info/METADATA", "bomb.egg-info/PKG-INFO"}, "egg.entry")
 			ents := []ZipEnt{{Name: "bomb.py", Src: Src{Text: "print('x')\n"}},
-				{Name: name, Deflate: true, Src: Src{Text: "Metadata-Version: 2.1\nName: bomb\nVersion: 1.0\nSummary: ", Pad: oneOf(rt, []int{160 << 20, 256 << 20}, "egg.size")}}}
+				{Name: name, Deflate: true, Src: Src{Text: "Metadata-Version: 2.1\nName: bomb\nVersion: 1.0\nSummary: ", Pad: 160 << 20}}}
 			if p.add(FileSpec{Path: fmt.Sprintf("%s/bomb%d-1.0-py3.10.egg", sitePkgs, i), Src: Src{Zip: ents}}) {
 				victim = len(p.files) - 1
 				avoid["python/wheelegg"] = true
